@@ -14,6 +14,33 @@ KNOWN_FILE = os.path.join(VERIF, "known_findings.json")
 NPROC = int(os.environ.get("VERIF_NPROC", "16"))
 
 
+_SCRATCH = None
+
+
+def scratch_dir():
+    """Private tmpfs directory for this run; created by the first caller (normally the parent before
+    forking, via vf.cli) and removed by that process at exit. Nothing is kept under /tmp."""
+    global _SCRATCH
+    d = os.environ.get("VF_SCRATCH")
+    if d and os.path.isdir(d):
+        return d
+    import atexit
+    import shutil
+    import tempfile
+
+    base = "/dev/shm" if os.path.isdir("/dev/shm") and os.access("/dev/shm", os.W_OK) else None
+    d = tempfile.mkdtemp(prefix="vf-%d-" % os.getpid(), dir=base)
+    os.environ["VF_SCRATCH"] = d
+    pid = os.getpid()
+
+    def _rm():
+        if os.getpid() == pid:
+            shutil.rmtree(d, ignore_errors=True)
+
+    atexit.register(_rm)
+    return d
+
+
 def seed():
     try:
         return int(os.environ.get("VERIF_SEED", "0"))
